@@ -58,6 +58,10 @@ def coq_files():
 
 def coq_makefile():
     files = coq_files()
+    try:
+        os.remove(os.path.join(COQ, '.Makefile.d'))
+    except OSError:
+        pass
     rc, out, err = sh(['coq_makefile', '-f', '_CoqProject'] + files + ['-o', 'Makefile'], cwd=COQ, timeout=120)
     if rc != 0:
         raise RuntimeError('coq_makefile failed: ' + err)
